@@ -1,0 +1,125 @@
+//go:build verif
+
+package cryptoutils
+
+// Contracts for gvc (contract-based deductive verification, see /verif/DESIGN.md).
+// Comment-only file, compiled only under the build tag "verif".
+//
+// The primitives are uninterpreted functions declared in /verif/specs/crypto.gvc:
+// hashF (hash), cbcE / cbcD (CBC encryption / decryption under a cipher id and key).
+// The wrappers below are proved (or, for CryptoHash, trusted) to compute exactly these.
+
+//@ spec func tdesExpand(k seq) seq { len(k) == 8 ? cat(k, k, k) : (len(k) == 16 ? cat(k, k[0:8]) : k) }
+//@ spec func canonKey(alg int, k seq) seq { alg == 1 ? tdesExpand(k) : k }
+//@ spec func blockSizeOf(alg int) int { alg == 2 ? 16 : 8 }
+//@ spec func zeros8() seq { seq(0, 0, 0, 0, 0, 0, 0, 0) }
+
+// ISO/IEC 9797-1 padding method 2: 0x80 then zero octets up to the next block boundary.
+//@ pred isPad2(p seq, s seq, bs int) { len(p) == ((len(s) + bs) / bs) * bs && p[:len(s)] === s && p[len(s)] == 128
+//@        && (forall i :: len(s) < i && i < len(p) ==> p[i] == 0) }
+
+//@ func ISO9797Method2Pad
+//@   props C03 C05 C10 C12
+//@   requires blockSize > 0 && blockSize <= 4096
+//@   ensures "method-2": isPad2(result, data, blockSize)
+//@   ensures fresh(result)
+//@   assigns nothing
+//@   safety all
+
+//@ func ISO9797Method2Unpad
+//@   props C03 C05 C10 C12
+//@   ensures "method-2-inverse": result1 == nil ==> len(result0) < len(data) && result0 === data[:len(result0)] && data[len(result0)] == 128
+//@        && (forall i :: len(result0) < i && i < len(data) ==> data[i] == 0)
+//@   assigns nothing
+//@   safety all
+
+//@ func tdesKey
+//@   props C03 C05 C10 C12
+//@   ensures (result1 == nil) == (len(key) == 8 || len(key) == 16 || len(key) == 24)
+//@   ensures result1 == nil ==> result0 === tdesExpand(key) && len(result0) == 24
+//@   assigns nothing
+//@   safety all
+
+//@ func CipherForKey
+//@   props C03 C05 C10 C12
+//@   ensures "cipher-for-alg-and-key": result1 == nil ==> result0 != nil && calg(result0) == alg && ckey(result0) === canonKey(alg, key) && cbs(result0) == blockSizeOf(alg)
+//@   ensures "err-iff-bad-key": (result1 == nil) == ((alg == 0 && len(key) == 8) || (alg == 1 && (len(key) == 8 || len(key) == 16 || len(key) == 24)) || (alg == 2 && (len(key) == 16 || len(key) == 24 || len(key) == 32)))
+//@   ensures result1 != nil ==> result0 == nil
+//@   assigns nothing
+//@   safety all
+
+//@ func CryptCBC
+//@   props C03 C05 C10 C12
+//@   requires blockCipher != nil && cbs(blockCipher) > 0
+//@   ensures "err-iff-misaligned": (result1 == nil) == (len(iv) == cbs(blockCipher) && len(data) % cbs(blockCipher) == 0)
+//@   ensures "cbc": result1 == nil && encrypt ==> result0 === cbcE(calg(blockCipher), ckey(blockCipher), iv, data)
+//@   ensures "cbc-decrypt": result1 == nil && !encrypt ==> result0 === cbcD(calg(blockCipher), ckey(blockCipher), iv, data)
+//@   ensures result1 == nil ==> len(result0) == len(data)
+//@   ensures fresh(result0)
+//@   ensures result1 != nil ==> result0 == nil
+//@   assigns nothing
+//@   safety all
+
+// ISO/IEC 9797-1 MAC algorithm 3 (retail MAC) with DES and a 16-octet key K1||K2 over already padded data:
+// CBC-encrypt under K1 with zero IV, take the last block, decrypt it under K2, encrypt under K1.
+//@ spec func mac3(k seq, m seq) seq {
+//@     cbcE(0, k[0:8], zeros8(), cbcD(0, k[8:16], zeros8(), cbcE(0, k[0:8], zeros8(), m)[len(m) - 8:])) }
+
+//@ func iso9797RetailMacDesWithDeps
+//@   inline
+//@ func ISO9797RetailMacDes
+//@   props C03 C05 C10 C12
+//@   ensures "err-iff-bad-lengths": (result1 == nil) == (len(key) == 16 && len(data) >= 8 && len(data) % 8 == 0)
+//@   ensures "retail-mac": result1 == nil ==> result0 === mac3(key, data) && len(result0) == 8
+//@   ensures fresh(result0)
+//@   ensures result1 != nil ==> result0 == nil
+//@   assigns nothing
+//@   safety all
+
+//@ func CryptoHash
+//@   props C03 C05 C10 C12
+//@   trusted
+//@   requires 2 <= alg && alg <= 7
+//@   ensures result === hashF(alg, data) && len(result) == hashLen(alg)
+//@   ensures fresh(result)
+//@   assigns nothing
+
+//@ func CryptoHashDigestSize
+//@   props C12 C07
+//@   requires 2 <= alg && alg <= 7
+//@   ensures result == hashLen(alg)
+//@   assigns nothing
+//@   safety all
+
+// DES key parity (FIPS 46-3): every octet gets odd parity by adjusting its least significant bit.
+//@ spec func bit(y int, t int) int { (y / (t == 0 ? 1 : (t == 1 ? 2 : (t == 2 ? 4 : (t == 3 ? 8 : (t == 4 ? 16 : (t == 5 ? 32 : (t == 6 ? 64 : (t == 7 ? 128 : 256))))))))) % 2 }
+//@ spec func pcLow(y int, j int) int { j <= 0 ? 0 : pcLow(y, j - 1) + bit(y, j - 1) }
+//@ spec func oddParity(b int) int { pcLow(b, 8) % 2 == 0 ? (b % 2 == 0 ? b + 1 : b - 1) : b }
+//@ opaque
+//@ func DesKeyAdjustParity
+//@   props C05 C04 C12
+//@   reveals oddParity
+//@   ensures "odd-parity": len(result) == len(key) && (forall k :: 0 <= k && k < len(key) ==> result[k] == oddParity(key[k]))
+//@   ensures fresh(result)
+//@   loop 1 invariant 0 <= i && i <= len(out) && len(out) == len(key) && fresh(out)
+//@   loop 1 invariant forall k :: 0 <= k && k < i ==> out[k] == oddParity(key[k])
+//@   loop 1 invariant forall k :: i <= k && k < len(key) ==> out[k] == key[k]
+//@   loop 1 decreases len(out) - i
+//@   loop 2 invariant 0 <= j && j <= 8 && parity == pcLow(y, j) && 0 <= parity && parity <= j
+//@   loop 2 invariant 0 <= i && i < len(out) && len(out) == len(key) && y == out[i] && out[i] == key[i]
+//@   loop 2 decreases 8 - j
+//@   assigns nothing
+//@   safety all
+
+// ICAO 9303-11 §9.7.1 key derivation: K = H(secret || counter), truncated; 3DES keys parity-adjusted.
+//@ spec func u32be(v int) seq { seq(v / 16777216, (v / 65536) % 256, (v / 256) % 256, v % 256) }
+//@ spec func kdfHash(alg int, bits int) int { (alg == 2 && bits != 128) ? 5 : 3 }
+//@ spec func kdfLen(alg int, bits int) int { alg == 1 ? 16 : bits / 8 }
+//@ func KDF
+//@   props C04 C05 C06 C12
+//@   requires "supported-suite": (alg == 1 && keySizeBits == 112) || (alg == 2 && (keySizeBits == 128 || keySizeBits == 192 || keySizeBits == 256))
+//@   ensures "length": len(result) == kdfLen(alg, keySizeBits)
+//@   ensures "aes": alg == 2 ==> result === hashF(kdfHash(alg, keySizeBits), cat(k, u32be(c % 4294967296)))[:kdfLen(alg, keySizeBits)]
+//@   ensures "tdes": alg == 1 ==> (forall i :: 0 <= i && i < 16 ==> result[i] == oddParity(hashF(3, cat(k, u32be(c % 4294967296)))[i]))
+//@   assigns nothing
+//@   safety all
